@@ -8,6 +8,7 @@ verus! {
 //@include prelude/error.rs
 //@include prelude/mem.rs
 //@include prelude/pathspec.rs
+use std::collections::VecDeque;
 //@broadcast-here
 pub mod syscalls {
     use super::*;
@@ -22,6 +23,8 @@ use syscalls::Error as SyscallError;
 
 impl<'a> RawComponents<'a> {
 //@prove utils.path.RawComponents.next
+//@prove utils.path.RawComponents.next_back
+//@prove utils.path.RawComponents.prepend
 }
 impl<'p> Ancestors<'p> {
 //@include prelude/ancestors_spec.rs
